@@ -305,7 +305,7 @@ fn guarded<T>(f: impl FnOnce() -> T) -> Option<T> {
     std::panic::catch_unwind(std::panic::AssertUnwindSafe(f)).ok()
 }
 
-fn run_job(cache: &mut HashMap<String, CachedRuntime>, source_hex: &str, resource: &str, bytes_hex: &str) {
+fn run_job(cache: &mut HashMap<String, Result<CachedRuntime, String>>, source_hex: &str, resource: &str, bytes_hex: &str) {
     let bytes = unhex(bytes_hex);
     let limit = MEM_FACTOR * bytes.len() + MEM_SLACK;
     let mut excess: Vec<String> = Vec::new();
@@ -396,19 +396,19 @@ fn run_job(cache: &mut HashMap<String, CachedRuntime>, source_hex: &str, resourc
     say("S apply");
     let source = String::from_utf8(unhex(source_hex)).expect("utf-8 source");
     if !cache.contains_key(&source) {
-        match build_runtime(&source) {
-            Ok(c) => {
-                cache.insert(source.clone(), c);
-            }
-            Err(e) => {
-                say(&format!("A runtime-error {}", e.replace(' ', "_")));
-                say("X skipped");
-                say("E");
-                return;
-            }
-        }
+        // failures are cached too: the same source would fail again
+        cache.insert(source.clone(), build_runtime(&source));
     }
-    let cached = cache.get_mut(&source).expect("cached");
+    let cached = match cache.get_mut(&source).expect("cached") {
+        Ok(c) => c,
+        Err(e) => {
+            say(&format!("A runtime-error {}", e.replace(' ', "_")));
+            say("S mem");
+            say("X skipped");
+            say("E");
+            return;
+        }
+    };
     // history independence: put the runtime back into its own configuration first
     let baseline = cached.baseline.clone();
     let reset = guarded(|| cached.runtime.apply_bytecode_bytes(&baseline, None));
@@ -456,7 +456,7 @@ fn main() {
         libc::setrlimit(libc::RLIMIT_AS, &lim);
     }
     std::panic::set_hook(Box::new(|_| {}));
-    let mut cache: HashMap<String, CachedRuntime> = HashMap::new();
+    let mut cache: HashMap<String, Result<CachedRuntime, String>> = HashMap::new();
     let stdin = std::io::stdin();
     for line in stdin.lock().lines() {
         let Ok(line) = line else { break };
